@@ -25,9 +25,9 @@
 #include <cmath>
 #include <cstdio>
 #include <cstdlib>
+#include <cstring>
 #if defined(XALAN_WINDOWS)
 #include <clocale>
-#include <cstring>
 #endif
 
 
@@ -1348,15 +1348,13 @@ TranscodeNumber(
 
 
 // Writes a finite, non-zero value to the buffer in fixed notation ("%.Nf"),
-// with the smallest number of fraction digits N, from 10 on, that reads back
-// as the same value, and returns the number of characters written.
+// with as many, but only as many, digits as are needed to distinguish the
+// value from all other doubles (XPath 4.2), and returns the number of
+// characters written.
 //
-// N depends on the magnitude: a value below 2^-k has floor(k * log10(2))
-// zeros after the decimal point before its first significant digit, and 17
-// significant digits identify any double, so N never exceeds that number of
-// zeros plus 20 (342 for the smallest denormalized value).  The formats
-// with fewer digits than that number of zeros can only print zero and are
-// not tried.
+// The number of significant digits needed (at most 17) is found with the
+// "%.*e" format, whose exponent then gives the number of fraction digits N
+// of the fixed notation: at most 342 for the smallest denormalized value.
 static int
 DoubleToFixedString(
             double  theValue,
@@ -1364,31 +1362,48 @@ DoubleToFixedString(
 {
     using std::snprintf;
     using std::atof;
-    using std::frexp;
+    using std::atoi;
+    using std::strchr;
 
-    int     theExponent = 0;
+    const int   theMaxSignificantDigits = 17;
 
-    // |theValue| < 2^theExponent
-    frexp(theValue, &theExponent);
+    char    theScientificBuffer[64];
 
-    // 0.30102 < log10(2): a lower bound for the number of leading zeros.
-    const int   theLeadingZeros =
-        theExponent < 0 ? int(-theExponent * 30102L / 100000L) : 0;
+    int     theSignificantDigits = 1;
 
-    const int   theMaxPrecision = theLeadingZeros + 20;
-
-    int     thePrecision = theLeadingZeros > 10 ? theLeadingZeros : 10;
-
-    int     theCharsWritten = 0;
-
-    do
+    for(;;)
     {
-        theCharsWritten = snprintf(theBuffer, MAX_PRINTF_DIGITS + 1, "%.*f", thePrecision, theValue);
-        assert(theCharsWritten > 0 && size_t(theCharsWritten) <= MAX_PRINTF_DIGITS);
+        snprintf(
+            theScientificBuffer,
+            sizeof(theScientificBuffer),
+            "%.*e",
+            theSignificantDigits - 1,
+            theValue);
 
-        ++thePrecision;
+        if (theSignificantDigits == theMaxSignificantDigits ||
+            atof(theScientificBuffer) == theValue)
+        {
+            break;
+        }
+
+        ++theSignificantDigits;
     }
-    while(atof(theBuffer) != theValue && thePrecision <= theMaxPrecision);
+
+    const char* const   theExponentString = strchr(theScientificBuffer, 'e');
+    assert(theExponentString != 0);
+
+    const int   theExponent = atoi(theExponentString + 1);
+
+    // There is always at least one fraction digit: the callers
+    // strip trailing zeros after the decimal point.
+    const int   thePrecision =
+        theSignificantDigits - 1 - theExponent > 1 ?
+            theSignificantDigits - 1 - theExponent :
+            1;
+
+    const int   theCharsWritten =
+        snprintf(theBuffer, MAX_PRINTF_DIGITS + 1, "%.*f", thePrecision, theValue);
+    assert(theCharsWritten > 0 && size_t(theCharsWritten) <= MAX_PRINTF_DIGITS);
 
     return theCharsWritten;
 }
